@@ -1,6 +1,6 @@
 (* C19: the "C" import is never renamed and its preamble sits directly above it. *)
 From Jen Require Import Base.Bytes Base.Sort Model.Code Model.Naming Model.Render Model.FileRender GoStd.Quote.
-From Jen Require Import Proofs.NamingProofs Proofs.StdProofs.
+From Jen Require Import Proofs.NamingProofs Proofs.StdProofs Proofs.ImportsProofs.
 
 (* Over every history of registrations and Anon calls (any hints naming "C", any prefix),
    the table's entry for "C" is (C, no alias) or Anon's "_" ... *)
@@ -26,16 +26,6 @@ Proof. exact is_dot_C. Qed.
 (* ... and its import spec never shows a name, whatever the entry holds. *)
 Theorem C19_C_spec_has_no_name : forall d, import_spec s_C d = GoQuote s_C.
 Proof. intros d. unfold import_spec. rewrite str_eqb_refl. cbn [negb]. rewrite andb_false_r. reflexivity. Qed.
-
-(* the main import declaration for a list of entries *)
-Definition main_block (l : table) : str :=
-  match l with
-  | [] => []
-  | [e] => S "import " ++ import_spec (fst e) (snd e) ++ [x0a; x0a]
-  | _ => S "import (" ++ [x0a] ++
-         concat_str (map (fun e => import_spec (fst e) (snd e) ++ [x0a]) (isort_by fst l)) ++
-         S ")" ++ [x0a; x0a]
-  end.
 
 (* With a preamble: the other imports (without "C") come first, then the preamble comments
    in the order given, each followed by one newline, then `import "C"` on its own. *)
